@@ -357,3 +357,48 @@ Example C14_struct_subdefaults_example :
   xsub_defaults 5 xi_env "in" xi_prop [] = Ok [("in", raw_to_val [("a", VInt (TInt I64) 5%Z)])] /\
   xsub_defaults 5 xi_env "in" (xwith_type xi_prop xi_obj) [] = Ok [("in", raw_to_val [("a", VInt (TInt I64) 5%Z)])].
 Proof. exact xsub_defaults_ref_inline_example. Qed.
+
+(* ================= (5) a scope tree REBUILT from its description ================= *)
+(* UnserializeScope builds every scope of the tree as a plain value (none goes through NewScopeSchema) and links
+   the whole tree by ONE ApplySelf of the outermost scope (`link_rebuilt`, Schema/Link.v).  Lexical resolution
+   holds for that tree too — a scope nested directly as a property type hands its OWN table down, so an id that
+   collides between the inner and the outer scope denotes the inner object inside the inner scope —, and at every
+   self-namespace occurrence the link is the very link of the tree built through the constructors. *)
+From Verif Require Import Proofs.Link3.
+
+Theorem C14_apply_self_lexical : forall f here s lt lt', link_ns f None "" here s lt = Ok lt' -> luniq s = true ->
+  forall p tab q id, In (p, (Some (tab, q), (id, ""))) (occs None "" here s) ->
+  exists o, alookup id tab = Some o /\ lt_get p lt' = Some (mkLE q tab o).
+Proof. exact apply_self_lexical. Qed.
+Print Assumptions C14_apply_self_lexical.
+
+Theorem C14_rebuilt_lexical : forall f s lt, link_rebuilt f s = Ok lt -> luniq s = true ->
+  forall p tab q id, In (p, (Some (tab, q), (id, ""))) (occs None "" [] s) ->
+  exists o, alookup id tab = Some o /\ lt_get p lt = Some (mkLE q tab o).
+Proof. exact rebuilt_lexical. Qed.
+Print Assumptions C14_rebuilt_lexical.
+
+Theorem C14_rebuilt_agrees_with_built : forall f g here s lt0 ltb ltr,
+  link_build f here s lt0 = Ok ltb -> link_ns g None "" here s [] = Ok ltr -> luniq s = true ->
+  forall p srcp id, In (p, (srcp, (id, ""))) (occs None "" here s) -> lt_get p ltb = lt_get p ltr.
+Proof. exact rebuilt_agrees_with_built. Qed.
+Print Assumptions C14_rebuilt_agrees_with_built.
+
+(* non-vacuity: a scope nested DIRECTLY as a property type, its ids A and B colliding with the outer ones *)
+Section ExamplesRebuilt.
+  Let prop_ (t : schema) : property := mkProp t None false [] [] [] None [] false false None.
+  Let inner := SScope [("A", SObject "A" false [("b", prop_ (SRef "B" "" None))]);
+                       ("B", SObject "B" false [("innerB", prop_ (SInt None None None))])] "A".
+  Let outer := SScope [("A", SObject "A" false [("s", prop_ inner); ("b", prop_ (SRef "B" "" None))]);
+                       ("B", SObject "B" false [("outerB", prop_ (SString None None None))])] "A".
+  Example C14_rebuilt_example :
+    match link_rebuilt 50 outer, link_build 50 [] outer [] with
+    | Ok ltr, Ok ltb =>
+        option_map le_loc (lt_get [PProp "b"; PObj "A"; PProp "s"; PObj "A"] ltr) = Some (LScope [PProp "s"; PObj "A"])
+        /\ option_map le_loc (lt_get [PProp "b"; PObj "A"] ltr) = Some (LScope [])
+        /\ lt_get [PProp "b"; PObj "A"; PProp "s"; PObj "A"] ltr = lt_get [PProp "b"; PObj "A"; PProp "s"; PObj "A"] ltb
+        /\ luniq outer = true
+    | _, _ => False
+    end.
+  Proof. vm_compute. repeat split; reflexivity. Qed.
+End ExamplesRebuilt.
